@@ -10,22 +10,52 @@ Abstraction function: `BufMap.abs` (expand the run list to per-byte colours; rel
 namespace GmQuic.BufMap
 open GmQuic.SendSpec
 
-/-- Refinement with the four index-juggling routines as named hypotheses (each is a closed statement about one
-transliterated function, see `Lemmas/BufMapRefine.lean`): every run of the transliterated `SendBuf` from
-`with_capacity(cap)` whose operations are in their domain is a trace of the specification, and the final states
-correspond. -/
-theorem refines_spec_partial (hA : AckRefines) (hS : ShiftRefines) (hL : LossRefines) (hP : PickRefines)
+/-- **Refinement, histories without loss reports — unconditional.**  `ack_rcvd`, `shift`, `pick` (and `extend_to`,
+`resend_flighting`, `forget`) are proved to refine the spec (`Lemmas/BufMapAck.lean`, `Lemmas/BufMapPick.lean`): every
+run of the transliterated `SendBuf` from `with_capacity(cap)` whose operations are in their domain and that contains
+no `may_loss_data` is a trace of the specification, and the final states correspond (`resend_flighting`, the other
+source of `Lost` bytes, is included). -/
+theorem refines_spec_without_loss (cap : Nat) (tr : List (SendOp × SendObs)) (b : SendBuf)
+    (h : XRun (SendBuf.withCapacity cap) tr b) (hnl : ¬ HasLose tr) :
+    ∃ s, Trace.Ok (SendSpec.init cap) tr s ∧ Rel b s :=
+  run_refines ackRefines shiftRefines pickRefines _ _ (rel_init cap) tr b h (fun hl => absurd hl hnl)
+
+/-- **Refinement, all histories — partial.**  The missing case is named: `LossRefines`, i.e. "`BufMap::may_loss`
+(with `may_lost_from`) recolours exactly the `Flighting` bytes of the range to `Lost` and keeps the map well-formed"
+(a closed statement about one transliterated function; `Lemmas/BufMapLoss.lean` proves it for the recursive helper
+`may_lost_from` and hence for ranges that start in acknowledged territory, the remaining branches are
+correspondence-tested only).  Under it every run of the transliteration is a trace of the specification. -/
+theorem refines_spec_partial (hL : LossRefines)
     (cap : Nat) (tr : List (SendOp × SendObs)) (b : SendBuf)
     (h : XRun (SendBuf.withCapacity cap) tr b) :
     ∃ s, Trace.Ok (SendSpec.init cap) tr s ∧ Rel b s :=
-  run_refines hA hS hL hP _ _ (rel_init cap) tr b h
+  run_refines ackRefines shiftRefines pickRefines _ _ (rel_init cap) tr b h (fun _ => hL)
 
-/-- No operation inside its domain panics (no `debug_assert`, no `unwrap`, no out-of-bounds `insert`/`drain`, no
-`u64` overflow), and its answer is a legal specification step. -/
-theorem step_no_panic_partial (hA : AckRefines) (hS : ShiftRefines) (hL : LossRefines) (hP : PickRefines)
+/-- No operation other than `may_loss_data` panics inside its domain (no `debug_assert`, no `unwrap`, no out-of-bounds
+`insert`/`drain`, no `u64` overflow), and its answer is a legal specification step — in particular every answer of
+`pick_up` satisfies `pickOk`. -/
+theorem step_no_panic (b : SendBuf) (s : SendSpec) (hR : Rel b s) (op : SendOp)
+    (hnl : ∀ a e, op ≠ .lose a e) (hd : DomX b op) :
+    ∃ b' obs s', xstep b op = .ok (b', obs) ∧ stepOk s op obs s' ∧ Rel b' s' :=
+  step_refines ackRefines shiftRefines pickRefines b s hR op (fun ⟨a, e, q⟩ => absurd q (hnl a e)) hd
+
+/-- the same for `may_loss_data`, under the named hypothesis -/
+theorem step_no_panic_partial (hL : LossRefines)
     (b : SendBuf) (s : SendSpec) (hR : Rel b s) (op : SendOp) (hd : DomX b op) :
     ∃ b' obs s', xstep b op = .ok (b', obs) ∧ stepOk s op obs s' ∧ Rel b' s' :=
-  step_refines hA hS hL hP b s hR op hd
+  step_refines ackRefines shiftRefines pickRefines b s hR op (fun _ => hL) hd
+
+/-- `on_data_acked` refines `ack` (index juggling of `ack_rcvd`, `shift`, the chunk-queue loop). -/
+theorem on_data_acked_refines (b : SendBuf) (s : SendSpec) (hR : Rel b s) (a e : Nat)
+    (hd : a < e ∧ e ≤ b.state.size ∧ ∀ x, a ≤ x → x < e → b.state.abs x ≠ .pending) :
+    ∃ b', b.onDataAcked a e = .ok b' ∧ Rel b' (s.ack a e) :=
+  ack_refines ackRefines shiftRefines b s hR a e hd
+
+/-- `pick_up` stays inside `pickOk` and refines `picked`. -/
+theorem pick_up_refines (b : SendBuf) (s : SendSpec) (hR : Rel b s) (pred : Nat → Option Nat) (flow : Nat)
+    (hd : PredDom pred) :
+    ∃ b' r, b.pickUp pred flow = .ok (b', r) ∧ pickOk s pred flow (obsOf r) ∧ Rel b' (s.picked (obsOf r)) :=
+  pickUp_refines pickRefines b s hR pred flow hd
 
 /-- `write`, `extend`, `resend_flighting`, `forget_sent_state` refine the spec unconditionally. -/
 theorem write_extend_resend_forget_refine (b : SendBuf) (s : SendSpec) (hR : Rel b s) :
